@@ -325,7 +325,8 @@ class Prog:
                 self.fail("C08:valid-key-raises", "%s raised %s: %s" % (text, type(result).__name__, result))
             return
         if isinstance(result, list):
-            self.obs.append("VList [%s]" % "; ".join("%d%%positive" % self.cls(x) for x in result))
+            self.obs.append("VList [%s]" % "; ".join(
+                "(%d%%positive, %s)" % (self.cls(x), zlit(x.isotope if kind_of(x) == 1 else x.number)) for x in result))
             for x in result:
                 self.oracle(x, text)
                 self.regs.append(x)
@@ -682,6 +683,21 @@ def add(res, label):
         fail(f["signature"], f["what"], program=f.get("program"))
 
 
+def direct_packed():
+    direct_sweep()
+    return dict(fails=fails, counts=counts)
+
+
+# the exhaustive sweep runs first, in its own child: it creates every ion, the sequences below
+# must start from the freshly imported library
+if only in ("all", "direct"):
+    res = in_child(direct_packed)
+    if "error" in res:
+        fail("C08:sweep-raises", "the exhaustive sweep raised: %s" % res["error"], trace=res.get("trace"))
+    else:
+        fails.extend(res["ok"]["fails"])
+        counts = res["ok"]["counts"]
+
 if only in ("all", "seq"):
     share = None if thorough else seed % 8
     for tname in TABLES:
@@ -694,9 +710,4 @@ if only in ("all", "seq"):
         add(in_child(lambda: pack(random_program(rng, length))), "random %d" % i)
         stats["random"] += 1
 
-if only in ("all", "direct"):
-    direct_sweep()
-
-# concise failing inputs of the exhaustive sweep first, then those met inside sequences
-fails.sort(key=lambda f: 1 if f.get("program") else 0)
 json.dump(dict(cases=cases, meta=meta, direct_fails=fails, counts=counts, stats=stats), sys.stdout)
